@@ -7,7 +7,7 @@ if git apply --check "$patch" 2>/dev/null; then git apply "$patch"
 elif patch -p1 --dry-run -F3 < "$patch" >/dev/null 2>&1; then patch -p1 -F3 -s < "$patch"
 else echo "PATCH-DOES-NOT-APPLY $patch"; exit 3; fi
 for p in "$@"; do
-  out=$(cd /verif && timeout 1500 env ${DEV:+VERIF_DEV_SKIP_PROOFS=1} /venv/bin/python check.py $p 2>&1 | grep -E "VIOLATION|KNOWN|Traceback|Error" | head -3)
+  out=$(cd /verif && timeout 1500 env ${DEV:+VERIF_DEV_SKIP_PROOFS=1} /venv/bin/python check.py $p 2>&1 | grep -E "VIOLATION|Traceback|Error" | head -3)
   echo "[$p] ${out:-no alarm}"
 done
 cd /repo && git checkout -- . && git clean -fdq -e '*.pyc' asyncstdlib >/dev/null 2>&1; find /repo -name "*.orig" -o -name "*.rej" | xargs -r rm -f
